@@ -9,9 +9,9 @@ cd "$WT" || exit 2
 git diff --quiet || { echo "worktree not clean"; exit 2; }
 cp _seed/demo${K}_test.go ./zz_seed_demo${K}_test.go
 names=$(grep -o 'func Test[A-Za-z0-9_]*' _seed/demo${K}_test.go | sed 's/func //' | paste -sd'|')
-clean=$(go test -vet=off -count=1 -run "^($names)\$" . 2>&1 | tail -1)
+clean=$(go test -tags verif -vet=off -count=1 -run "^($names)\$" . 2>&1 | tail -1)
 git apply _seed/patch${K}.diff || { echo "patch does not apply"; rm -f zz_seed_demo${K}_test.go; exit 2; }
-patched=$(go test -vet=off -count=1 -run "^($names)\$" . 2>&1 | tail -1)
+patched=$(go test -tags verif -vet=off -count=1 -run "^($names)\$" . 2>&1 | tail -1)
 rm -f zz_seed_demo${K}_test.go
 suite=$(go test -vet=off -count=1 . ./pkg/handlers ./pkg/binding 2>&1 | grep -c '^ok')
 vet=$(go build ./... 2>&1 | head -1)
